@@ -91,8 +91,11 @@ def rnd_int(rng):
 # characters that exist both in ISO-8859-1 and in JIS X 0208: the order of the text -> bytes policy decides
 LATIN1_JIS = '°±§¶×÷¢£¥¨¬´'
 
+# characters Microsoft's cp932 can encode but Shift JIS (JIS X 0208) cannot: they must end up as UTF-8
+CP932_ONLY = '～－∥①②③㈱髙№℡'
+
 CLASSES = ['digits', 'alnum', 'ascii', 'latin1', 'kana', 'utf8', 'cyr', 'sjis_bytes', 'lead_trail',
-           'hanzi', 'bytes', 'int', 'empty', 'latin1_jis']
+           'hanzi', 'bytes', 'int', 'empty', 'latin1_jis', 'cp932_only']
 
 
 def content_of(rng, cls, n=None):
@@ -108,6 +111,8 @@ def content_of(rng, cls, n=None):
         return latin1_text(rng, n)
     if cls == 'latin1_jis':
         return ''.join(rng.choice(LATIN1_JIS) if rng.random() < 0.3 else chr(rng.randint(0x20, 0x7e)) for _ in range(max(n, 1)))
+    if cls == 'cp932_only':
+        return ''.join(rng.choice(CP932_ONLY) if rng.random() < 0.4 else rng.choice(KANA) for _ in range(max(n // 2, 1)))
     if cls == 'kana':
         return from_alphabet(rng, max(n // 2, 1), KANA)
     if cls == 'utf8':
